@@ -62,11 +62,13 @@ func (c Command) ExecuteIQ(ctx context.Context, iq stanza.IQ, payload xml.TokenR
 	if err != nil {
 		return resp, nil, err
 	}
+	// The return statements below overwrite the named result, so remember what
+	// has to be closed if we fail after this point.
+	toClose := respPayload
 	defer func() {
-		respPayload := respPayload
-		if err != nil && respPayload != nil {
+		if err != nil {
 			/* #nosec */
-			respPayload.Close()
+			toClose.Close()
 		}
 	}()
 	var t xml.Token
